@@ -1,0 +1,184 @@
+//go:build verif
+
+package symboltable
+
+import (
+	"fmt"
+	"math/rand"
+	"strings"
+)
+
+// This file is compiled only with the build tag "verif". It adds read-only accessors for the internal
+// state of the four hash tables and a way to make the iteration order of All() reproducible.
+// Nothing here changes the behaviour of the package when the tag is absent.
+
+// VerifSlot is one occupied slot of a hash table.
+// For the separate-chaining table, Index is the bucket and the slots of a bucket come in chain order.
+type VerifSlot[K, V any] struct {
+	Index   int
+	Key     K
+	Val     V
+	Deleted bool
+}
+
+// VerifHashState is a snapshot of the internal state of a hash table.
+type VerifHashState[K, V any] struct {
+	Kind  string // chain | linear | quadratic | double
+	M     int    // number of slots (buckets)
+	N     int    // number of key-values
+	U     int    // number of used slots including the soft-deleted ones (quadratic, double); N otherwise
+	P     int    // the prime used by the secondary hash (double); 0 otherwise
+	Len   int    // len(entries) or len(buckets)
+	Slots []VerifSlot[K, V]
+}
+
+// VerifHashSlots returns a snapshot of the internal state of a hash table (ok is false for other symbol tables).
+func VerifHashSlots[K, V any](st SymbolTable[K, V]) (s VerifHashState[K, V], ok bool) {
+	switch ht := st.(type) {
+	case *chainHashTable[K, V]:
+		s = VerifHashState[K, V]{Kind: "chain", M: ht.m, N: ht.n, U: ht.n, Len: len(ht.buckets)}
+		for i, first := range ht.buckets {
+			for x := first; x != nil; x = x.next {
+				s.Slots = append(s.Slots, VerifSlot[K, V]{Index: i, Key: x.key, Val: x.val})
+			}
+		}
+	case *linearHashTable[K, V]:
+		s = VerifHashState[K, V]{Kind: "linear", M: ht.m, N: ht.n, U: ht.n, Len: len(ht.entries)}
+		for i, e := range ht.entries {
+			if e != nil {
+				s.Slots = append(s.Slots, VerifSlot[K, V]{Index: i, Key: e.Key, Val: e.Val})
+			}
+		}
+	case *quadraticHashTable[K, V]:
+		s = VerifHashState[K, V]{Kind: "quadratic", M: ht.m, N: ht.n, U: ht.u, Len: len(ht.entries)}
+		for i, e := range ht.entries {
+			if e != nil {
+				s.Slots = append(s.Slots, VerifSlot[K, V]{Index: i, Key: e.key, Val: e.val, Deleted: e.deleted})
+			}
+		}
+	case *doubleHashTable[K, V]:
+		s = VerifHashState[K, V]{Kind: "double", M: ht.m, N: ht.n, U: ht.u, P: ht.p, Len: len(ht.entries)}
+		for i, e := range ht.entries {
+			if e != nil {
+				s.Slots = append(s.Slots, VerifSlot[K, V]{Index: i, Key: e.key, Val: e.val, Deleted: e.deleted})
+			}
+		}
+	default:
+		return s, false
+	}
+	return s, true
+}
+
+// VerifHashDump renders the internal state of a hash table:
+//
+//	quadratic m=31 n=1 u=2 p=0 [12:(3,7,L) 15:(4,1,D)]
+//
+// L marks a live entry and D a soft-deleted one.
+func VerifHashDump[K, V any](st SymbolTable[K, V]) string {
+	s, ok := VerifHashSlots(st)
+	if !ok {
+		return "not-a-hash-table"
+	}
+	var b strings.Builder
+	fmt.Fprintf(&b, "%s m=%d n=%d u=%d p=%d [", s.Kind, s.M, s.N, s.U, s.P)
+	for i, e := range s.Slots {
+		if i > 0 {
+			b.WriteByte(' ')
+		}
+		flag := "L"
+		if e.Deleted {
+			flag = "D"
+		}
+		fmt.Fprintf(&b, "%d:(%v,%v,%s)", e.Index, e.Key, e.Val, flag)
+	}
+	b.WriteByte(']')
+	return b.String()
+}
+
+// VerifProbes walks the probe sequence of key without modifying the table and reports how many slots
+// Get inspects (get) and how many slots the search loop shared by Put and Delete inspects (find).
+// For the separate-chaining table both count the nodes of the bucket that are visited.
+// A count of -1 means that the walk did not stop within limit steps.
+func VerifProbes[K, V any](st SymbolTable[K, V], key K, limit int) (get, find int) {
+	walk := func(next func() int, at func(i int) (nilSlot, stopGet, stopFind bool)) (int, int) {
+		g, f := -1, -1
+		for c := 1; c <= limit && (g < 0 || f < 0); c++ {
+			isNil, sg, sf := at(next())
+			if g < 0 && (isNil || sg) {
+				g = c
+			}
+			if f < 0 && (isNil || sf) {
+				f = c
+			}
+		}
+		return g, f
+	}
+
+	switch ht := st.(type) {
+	case *chainHashTable[K, V]:
+		c := 0
+		for x := ht.buckets[ht.hash(key)]; x != nil; x = x.next {
+			c++
+			if ht.eqKey(x.key, key) {
+				break
+			}
+		}
+		return c, c
+	case *linearHashTable[K, V]:
+		return walk(ht.probe(key), func(i int) (bool, bool, bool) {
+			e := ht.entries[i]
+			if e == nil {
+				return true, false, false
+			}
+			eq := ht.eqKey(e.Key, key)
+			return false, eq, eq
+		})
+	case *quadraticHashTable[K, V]:
+		return walk(ht.probe(key), func(i int) (bool, bool, bool) {
+			e := ht.entries[i]
+			if e == nil {
+				return true, false, false
+			}
+			eq := ht.eqKey(e.key, key)
+			return false, !e.deleted && eq, eq
+		})
+	case *doubleHashTable[K, V]:
+		return walk(ht.probe(key), func(i int) (bool, bool, bool) {
+			e := ht.entries[i]
+			if e == nil {
+				return true, false, false
+			}
+			eq := ht.eqKey(e.key, key)
+			return false, !e.deleted && eq, eq
+		})
+	}
+	return -1, -1
+}
+
+// verifSource is a tiny deterministic rand.Source (splitmix64), so that the order in which All() visits
+// the slots of a hash table can be reproduced outside of Go.
+type verifSource struct {
+	s        uint64
+	identity bool
+}
+
+func (v *verifSource) Seed(seed int64) { v.s = uint64(seed) }
+
+func (v *verifSource) Int63() int64 {
+	if v.identity {
+		// With this value every int31n(i+1) of rand.Shuffle yields i: the shuffle is the identity.
+		return 1<<63 - 1
+	}
+	v.s += 0x9E3779B97F4A7C15
+	z := v.s
+	z = (z ^ (z >> 30)) * 0xBF58476D1CE4E5B9
+	z = (z ^ (z >> 27)) * 0x94D049BB133111EB
+	z ^= z >> 31
+	return int64(z >> 1)
+}
+
+// VerifSetShuffleSeed replaces the package-level random generator used to shuffle iteration orders.
+// Seed 0 makes every shuffle the identity permutation; any other seed selects a splitmix64 stream.
+func VerifSetShuffleSeed(seed int64) {
+	r = rand.New(&verifSource{s: uint64(seed), identity: seed == 0})
+}
